@@ -191,4 +191,64 @@ var targets = []Target{
 	{Func: "determinesCallSuccess", Out: "dcsFailMsg", Params: "(mt : Z) (resCode : Z) (errKey : list Z)", Ret: "list Z", RetIdx: 1,
 		Hints:  map[string]string{"f.messageType()": "mt", "isCallResOK(f)": "(isCallResOK resCode)"},
 		SHints: map[string]string{"msg := newLazyError(f).Code().MetricsKey()": "let msg := errKey in"}},
+	// C07 -- admission and close decisions (GenClose.v).  Statement targets: one statement of a
+	// function that is otherwise outside the subset (locks, closures, loops).  Codes of the
+	// admission functions: 1 = control falls out of the statement (the call proceeds),
+	// 0 = the refusing branch (it must contain the statements named in the stmt-hints, in that
+	// order: a missing one leaves its marker variable unbound and the Gen file does not compile).
+	{Func: "Relayer.canClose", Out: "relayCanClose", File: "GenClose", Soft: true,
+		Params: "(has_relay : bool) (pending : Z)", Ret: "bool",
+		Hints: map[string]string{"r == nil": "(negb has_relay)", "r.countPending()": "pending"}},
+	{Func: "Relayer.canHandleNewCall", Out: "relayCanHandle", File: "GenClose", Soft: true,
+		Params: "(curState : Z)", Ret: "bool",
+		Stmt: "canHandle = curState == connectionActive", AssignRet: "canHandle", Rest: "false"},
+	{Func: "Relayer.canHandleNewCall", Out: "relayPendingAfter", File: "GenClose", Soft: true,
+		Params: "(canHandle : bool) (pending : Z)", Ret: "Z",
+		Stmt: "if canHandle {", Rest: "pending",
+		SHints: map[string]string{"r.pending.Inc()": "let pending := pending + 1 in"}},
+	{Func: "Connection.handleCallReq", Out: "callReqStateSwitch", File: "GenClose", Soft: true, Panics: true,
+		Params: "(cur : Z)", Ret: "option Z",
+		Stmt: "switch state := c.readState(); state {", Rest: "(Some 1)",
+		Hints: map[string]string{"c.readState()": "cur", "true": "sent_closed"},
+		SHints: map[string]string{
+			"c.SendSystemError(frame.Header.ID, callReqSpan(frame), ErrChannelClosed)": "let sent_closed := 0 in",
+		}},
+	{Func: "Connection.handleCallReq", Out: "callReqRecheck", File: "GenClose", Soft: true,
+		Params: "(cur : Z)", Ret: "Z",
+		Stmt: "if c.readState() != connectionActive {", Rest: "1",
+		Hints: map[string]string{"c.readState()": "cur", "true": "shut_down"},
+		SHints: map[string]string{
+			"c.SendSystemError(frame.Header.ID, callReqSpan(frame), ErrChannelClosed)": "let sent_closed := 0 in",
+			"mex.shutdown()": "let shut_down := sent_closed in",
+		}},
+	{Func: "Connection.beginCall", Out: "beginCallStateSwitch", File: "GenClose", Soft: true, RetIdx: 1,
+		Params: "(cur : Z)", Ret: "Z",
+		Stmt: "switch state := c.readState(); state {", Rest: "1",
+		Hints: map[string]string{"c.readState()": "cur", "ErrConnectionClosed": "0",
+			"errConnectionUnknownState{\"beginCall\", state}": "2"}},
+	{Func: "Connection.beginCall", Out: "beginCallRecheck", File: "GenClose", Soft: true, RetIdx: 1,
+		Params: "(cur : Z)", Ret: "Z",
+		Stmt: "if state := c.readState(); state != connectionActive {", Rest: "1",
+		Hints:  map[string]string{"c.readState()": "cur", "ErrConnectionClosed": "shut_down"},
+		SHints: map[string]string{"mex.shutdown()": "let shut_down := 0 in"}},
+	// channel.go: getMinConnectionState = fold of minStateStep over the connections from minStateInit
+	{Func: "Channel.getMinConnectionState", Out: "minStateInit", File: "GenClose", Soft: true,
+		Params: "", Ret: "Z", Stmt: "minState := connectionClosed", Rest: "minState"},
+	{Func: "Channel.getMinConnectionState", Out: "minStateStep", File: "GenClose", Soft: true,
+		Params: "(minState : Z) (connState : Z)", Ret: "Z",
+		Stmt: "if s := c.readState(); s < minState {", Rest: "minState",
+		Hints: map[string]string{"c.readState()": "connState"}},
+	// channel.go connectionCloseStateChange: the update computed from the scan, and its application
+	{Func: "Channel.connectionCloseStateChange", Out: "chanUpdateTo", File: "GenClose", Soft: true,
+		Params: "(minState : Z) (chState : Z)", Ret: "Z",
+		Stmt: "if minState >= connectionClosed {", Pre: "let updateTo := 0 in", Rest: "updateTo"},
+	{Func: "Channel.connectionCloseStateChange", Out: "chanApplyUpdate", File: "GenClose", Soft: true,
+		Params: "(cur : Z) (updateTo : Z)", Ret: "Z",
+		Stmt: "if ch.mutable.state < updateTo {", AssignRet: "ch.mutable.state", Rest: "cur",
+		Hints: map[string]string{"ch.mutable.state": "cur"}},
+	// channel.go Close: the state assignment of the locked region
+	{Func: "Channel.Close", Out: "chanCloseState", File: "GenClose", Soft: true,
+		Params: "(cur : Z)", Ret: "Z",
+		Stmt: "if ch.mutable.state < ChannelStartClose {", AssignRet: "ch.mutable.state", Rest: "cur",
+		Hints: map[string]string{"ch.mutable.state": "cur"}},
 }
